@@ -68,3 +68,69 @@ func vpH_C18_T_watch_closed() {
 	stt := s.e.Status()
 	vpAssert("C18.flag-iff-state", stt.IsLeader == (stt.State == StateLeader))
 }
+
+// vpH_C18_T_exleader: an instance that followed, then led, is preempted without any watch notification
+// reaching it: its heartbeat notices, and from then on it is a follower whose watch stream stays silent. Its
+// LeaderID must still converge to the id in the live record (the periodic check is what is left).
+func vpH_C18_T_exleader() {
+	H := time.Second
+	vpSetOpt("rand-fixed", 1)
+	s := vpFollowingInstance(H, nil)
+	time.Sleep(450 * time.Millisecond)
+	s.st.write("env:other", "delete", nil, true, 0)
+	time.Sleep(200 * time.Millisecond)
+	vpQuiesce()
+	if !s.e.IsLeader() {
+		vpEndPath("not-elected")
+	}
+	vpAssert("C18.leader-leaderid", s.e.Status().LeaderID == "a")
+	s.st.noEvents = true
+	s.st.write("env:hi", "update", vpRecMk("hi", "tok-hi", 9), false, s.st.lastSeq)
+	time.Sleep(2*H + H/2)
+	vpQuiesce()
+	vpCover("C18.exleader")
+	vpAssert("C18.follower-leaderid", !s.e.Status().IsLeader && s.e.Status().LeaderID == "hi")
+	stt := s.e.Status()
+	vpAssert("C18.flag-iff-state", stt.IsLeader == (stt.State == StateLeader))
+	_ = s.e.Stop()
+}
+
+// vpH_C18_T_stop_vs_demote: the leader's record has been replaced (unnoticed) and the application calls
+// ValidateTokenOrDemote from one goroutine and Stop / StopWithContext from another; the demotion is placed by
+// the explorer at every switch point of the running stop call (the Metrics calls inside its critical section
+// are scheduling points). After both have returned the election is STOPPED, the snapshot is consistent and the
+// recorded transitions form a chain.
+func vpH_C18_T_stop_vs_demote() {
+	tm := vpTimings[0]
+	m := &vpMetrics{}
+	s := vpLeadingInstance(tm, 0, func(cfg *ElectionConfig) { cfg.Metrics = m })
+	s.st.ttl = 0
+	s.kv.opLeft = 20
+	m.yieldOn = true
+	variant := vpChoose("variant", 2)
+	s.st.noEvents = true
+	s.st.write("env:other", "update", vpRecMk("other", "tok-other", 0), false, s.st.lastSeq)
+	done := false
+	go func() {
+		vpYieldLazy("api.validate", tm.H/2)
+		_ = s.e.ValidateTokenOrDemote(vpRootCtx())
+		done = true
+	}()
+	time.Sleep(tm.H / 4)
+	_ = vpDoStop(s.e, variant)
+	time.Sleep(tm.H)
+	vpQuiesce()
+	vpCover("C18.stop-vs-demote")
+	dl := vpDeadlocked()
+	vpAssert("C18.no-deadlock", dl == "" && done)
+	if dl != "" {
+		return
+	}
+	stt := s.e.Status()
+	vpAssert("C18.stopped-after-stop", stt.State == StateStopped && !stt.IsLeader)
+	prev := StateCandidate
+	for _, tr := range m.transitions {
+		vpAssert("C18.chain", tr[0] == prev)
+		prev = tr[1]
+	}
+}
